@@ -1097,13 +1097,18 @@ def svc_run(kind):
         else:
             cov = dict(spawns=sum(r["spawns"] for r in reps), frames_compared=sum(r["frames"] for r in reps),
                        complete_lifecycles=sum(r["lifecycles"] for r in reps),
+                       duplex_instances_compared_with_model=sum(r.get("duplex_instances", 0) for r in reps),
                        samples=[dict(seed=seeds[0], expressions=reps[0]["exprs"])])
             rule = ("one evaluation = one scenario on the real server (api + generator dispatcher): 2-4 generators over two contexts "
                     "from expressions producing 0..4 strings (single value, list stream, range stream, empty and non-ASCII strings), "
                     "duplex generators fed by .send frames interleaved with other traffic, spawns without content and spawns of a "
-                    "running name (refused); after ~2.6 s (at least two restarts) the frames of every spawn (by meta.source_id) must be "
+                    "running name (refused), duplex generators whose pipeline ends after one input (several instances), the same "
+                    "name in two contexts, sends shorter than Nushell's 4-byte chunk threshold; once every plain generator has "
+                    "completed three lifecycles (or after 12 s) the frames of every spawn (by meta.source_id) must be "
                     "a prefix of the model's start, recv..., stop, start, ... with the produced strings as contents, in the spawn's "
-                    "context, with at least two complete lifecycles; refused spawns yield exactly one .spawn.error")
+                    "context, with at least three complete lifecycles; every instance of a duplex generator must have produced "
+                    "exactly what Service.instance_input (extracted) feeds it from the observed stream; refused spawns yield "
+                    "exactly one .spawn.error")
             nontrivial = sum(1 for r in reps if r["frames"] >= 4)
         ctx.coverage.update(dict(evaluations=len(seeds), distinct_nontrivial=nontrivial, rule=rule,
                                  traces_validated_against_impl=len(seeds), **cov))
@@ -1124,8 +1129,9 @@ REGISTRY["C18"] = dict(
     prop_file="Props/C18.v", engine="V", run=svc_run("gen"), replay=svc_replay("gen"),
     level_text="Coq (for every list of produced strings): a lifecycle is start, one recv per string in production order with "
                "that string as content, stop; all frames carry the spawn id as source and the spawn's context; consecutive "
-               "lifecycles concatenate (restart after stop); duplex input is the contents of the .send frames after the start, "
-               "once each, in order. Mostly by construction of a sequential worker, so the weight is on the tie: generator "
+               "lifecycles concatenate (restart after stop); duplex input is the contents of the .send frames of the generator's "
+               "context after the instance's own start and before its stop, once each, in order, and instances that do not "
+               "overlap share no input. Mostly by construction of a sequential worker, so the weight is on the tie: generator "
                "scenarios on the real server compared frame by frame with the extracted model (it found the empty-string "
                "defect fixed in /repo).",
     level_note=HANDLER_NOTE + " The 1 s respawn delay is real time. Duplex input is not filtered by context in the code (noted, "
